@@ -3,13 +3,16 @@
 //! (independent of capstone), so that the specification can compute the architecture's successor
 //! relation from the *description*; the recovered function is projected to native addresses.
 //!
+//! Architectures: amd64, x86 (32-bit), aarch64, aarch64eb (A64 instructions are little-endian in both).
+//!
 //!   c06x --mode random --n N --out FILE     (VERIF_SEED)
 //!   c06x --mode replay --in FILE --out FILE
 
 use falcon::il;
 use falcon::memory::backing::Memory;
 use falcon::memory::MemoryPermissions;
-use falcon::translator::x86::Amd64;
+use falcon::translator::aarch64::{AArch64, AArch64Eb};
+use falcon::translator::x86::{Amd64, X86};
 use falcon::translator::Translator;
 use fv::{guard, Out, Rng};
 use serde_json::{json, Value};
@@ -22,6 +25,67 @@ struct Ins {
     kind: &'static str, // fall | jump | cond | ind
     rel: usize,         // width of the relative displacement at the end of the encoding (0, 1, 4)
     target: i64,        // index of the target instruction (jump/cond), -1 otherwise
+}
+
+fn plain32(rng: &mut Rng) -> Ins {
+    let b: Vec<u8> = match rng.below(9) {
+        0 => vec![0x90],                                                   // nop
+        1 => { let mut v = vec![0xb8 + rng.below(4) as u8]; v.extend((rng.next() as u32).to_le_bytes()); v } // mov r32, imm32
+        2 => vec![0x01, 0xd8],                                             // add eax, ebx
+        3 => vec![0x31, 0xc9],                                             // xor ecx, ecx
+        4 => vec![0x8d, 0x44, 0x58, 0x10],                                 // lea eax, [eax+ebx*2+0x10]
+        5 => { let mut v = vec![0x8d, 0x83]; v.extend((rng.next() as u32 & 0xffff).to_le_bytes()); v } // lea eax, [ebx+disp32] (6 bytes)
+        6 => vec![0x83, 0xf8, rng.below(128) as u8],                       // cmp eax, imm8
+        7 => vec![0x85, 0xc0],                                             // test eax, eax
+        _ => { let mut v = vec![0x81, 0xc3]; v.extend((rng.next() as u32 & 0x7fff_ffff).to_le_bytes()); v } // add ebx, imm32 (6 bytes)
+    };
+    Ins { bytes: b, kind: "fall", rel: 0, target: -1 }
+}
+
+/// A64: every instruction is 4 bytes; `rel` is unused, displacements are encoded after the layout is known
+fn generate_a64(rng: &mut Rng) -> (Vec<Ins>, usize, Vec<(usize, usize)>) {
+    let n = rng.range(4, 44) as usize;
+    let mut v: Vec<Ins> = Vec::new();
+    for i in 0..n {
+        let last = i + 1 == n;
+        let r = rng.below(100);
+        let t = rng.below(n as u64) as i64;
+        let d = ((t - i as i64) as i32) as u32; // displacement in words
+        let enc = |w: u32| w.to_le_bytes().to_vec();
+        let ins = if (last && rng.chance(1, 3)) || (!last && (10..13).contains(&r)) {
+            Ins { bytes: enc(0x1400_0000 | (d & 0x03ff_ffff)), kind: "jump", rel: 0, target: t }            // b
+        } else if last || (13..16).contains(&r) {
+            let w = if rng.bool() { 0xd65f_03c0 } else { 0xd61f_0000 | ((rng.below(30) as u32) << 5) };        // ret | br xN
+            Ins { bytes: enc(w), kind: "ind", rel: 0, target: -1 }
+        } else if r < 10 {
+            let w = match rng.below(4) {
+                0 => 0x5400_0000 | ((d & 0x7ffff) << 5) | rng.below(14) as u32,                               // b.cond (not al/nv)
+                1 => 0xb400_0000 | ((d & 0x7ffff) << 5) | rng.below(31) as u32,                               // cbz xN
+                2 => 0x3500_0000 | ((d & 0x7ffff) << 5) | rng.below(31) as u32,                               // cbnz wN
+                _ => (if rng.bool() { 0x3600_0000 } else { 0x3700_0000 }) | ((rng.below(32) as u32) << 19)
+                        | ((d & 0x3fff) << 5) | rng.below(31) as u32,                                          // tbz / tbnz wN, #b
+            };
+            Ins { bytes: enc(w), kind: "cond", rel: 0, target: t }
+        } else {
+            let w = match rng.below(5) {
+                0 => 0xd503_201f,                                                                             // nop
+                1 => 0x9100_0000 | ((rng.below(4096) as u32) << 10) | ((rng.below(31) as u32) << 5) | rng.below(31) as u32, // add xd, xn, #imm
+                2 => 0xd280_0000 | ((rng.below(65536) as u32) << 5) | rng.below(31) as u32,                   // movz xd, #imm
+                3 => 0xeb00_0000 | ((rng.below(31) as u32) << 16) | ((rng.below(31) as u32) << 5) | rng.below(31) as u32, // subs xd, xn, xm
+                _ => 0xd100_0000 | ((rng.below(4096) as u32) << 10) | ((rng.below(31) as u32) << 5) | rng.below(31) as u32, // sub xd, xn, #imm
+            };
+            Ins { bytes: enc(w), kind: "fall", rel: 0, target: -1 }
+        };
+        v.push(ins);
+    }
+    let entry = if rng.chance(1, 4) { rng.below(n as u64) as usize } else { 0 };
+    let mut manual = Vec::new();
+    for i in 0..n {
+        if v[i].kind == "ind" && rng.chance(1, 4) {
+            manual.push((i, rng.below(n as u64) as usize));
+        }
+    }
+    (v, entry, manual)
 }
 
 fn plain(rng: &mut Rng) -> Ins {
@@ -39,7 +103,10 @@ fn plain(rng: &mut Rng) -> Ins {
     Ins { bytes: b, kind: "fall", rel: 0, target: -1 }
 }
 
-fn generate(rng: &mut Rng) -> (Vec<Ins>, usize, Vec<(usize, usize)>) {
+fn generate(rng: &mut Rng, arch: &str) -> (Vec<Ins>, usize, Vec<(usize, usize)>) {
+    if arch.starts_with("aarch64") {
+        return generate_a64(rng);
+    }
     let n = rng.range(4, 36) as usize;
     let mut v: Vec<Ins> = Vec::new();
     for i in 0..n {
@@ -67,6 +134,8 @@ fn generate(rng: &mut Rng) -> (Vec<Ins>, usize, Vec<(usize, usize)>) {
             }
         } else if r < 18 {
             Ins { bytes: vec![0xc3], kind: "ind", rel: 0, target: -1 }
+        } else if arch == "x86" {
+            plain32(rng)
         } else {
             plain(rng)
         };
@@ -115,7 +184,17 @@ fn generate(rng: &mut Rng) -> (Vec<Ins>, usize, Vec<(usize, usize)>) {
     (v, entry, manual)
 }
 
-fn run(out: &mut Out, v: &[Ins], entry: usize, manual: &[(usize, usize)]) {
+fn translator(arch: &str) -> Box<dyn Translator> {
+    match arch {
+        "amd64" => Box::new(Amd64::new()),
+        "x86" => Box::new(X86::new()),
+        "aarch64" => Box::new(AArch64::new()),
+        "aarch64eb" => Box::new(AArch64Eb::new()),
+        _ => panic!("unknown architecture"),
+    }
+}
+
+fn run(out: &mut Out, arch: &str, v: &[Ins], entry: usize, manual: &[(usize, usize)]) {
     let n = v.len();
     let mut off = vec![0usize; n + 1];
     let mut bytes = Vec::new();
@@ -128,13 +207,13 @@ fn run(out: &mut Out, v: &[Ins], entry: usize, manual: &[(usize, usize)]) {
                         "t": if v[i].target >= 0 { off[v[i].target as usize] as i64 } else { -1 },
                         "bytes": v[i].bytes}))
         .collect();
-    let mut mem = Memory::new(falcon::architecture::Endian::Little);
+    let mut mem = Memory::new(if arch == "aarch64eb" { falcon::architecture::Endian::Big } else { falcon::architecture::Endian::Little });
     mem.set_memory(BASE, bytes.clone(), MemoryPermissions::READ | MemoryPermissions::EXECUTE);
     let mut options = falcon::translator::Options::new();
     for (h, t) in manual {
         options.add_manual_edge(falcon::translator::ManualEdge::new(BASE + off[*h] as u64, BASE + off[*t] as u64, None));
     }
-    let res = guard(|| Amd64::new().translate_function_extended(&mem, BASE + off[entry] as u64, &options));
+    let res = guard(|| translator(arch).translate_function_extended(&mem, BASE + off[entry] as u64, &options));
     let resj = res.json(|f: &il::Function| {
         let mut blocks: Vec<&il::Block> = f.blocks();
         blocks.sort_by_key(|b| b.index());
@@ -162,7 +241,7 @@ fn run(out: &mut Out, v: &[Ins], entry: usize, manual: &[(usize, usize)]) {
     // instruction is lifted alone (a jcc is several IL blocks)
     let alone: Vec<i64> = (0..n)
         .map(|i| {
-            match guard(|| Amd64::new().translate_block(&v[i].bytes, BASE + off[i] as u64, &falcon::translator::Options::new())) {
+            match guard(|| translator(arch).translate_block(&v[i].bytes, BASE + off[i] as u64, &falcon::translator::Options::new())) {
                 fv::Outcome::Ok(r) => r.instructions().iter().map(|(_, g)| {
                     g.blocks().iter().filter(|b| !b.instructions().is_empty()).count() as i64
                 }).sum(),
@@ -170,7 +249,7 @@ fn run(out: &mut Out, v: &[Ins], entry: usize, manual: &[(usize, usize)]) {
             }
         })
         .collect();
-    out.emit(&json!({"ev": "xstruct", "mode": "amd64", "size": off[n], "prog": prog, "entry": off[entry], "alone": alone,
+    out.emit(&json!({"ev": "xstruct", "mode": arch, "size": off[n], "prog": prog, "entry": off[entry], "alone": alone,
                      "manual": manual.iter().map(|(h, t)| json!([off[*h], off[*t]])).collect::<Vec<_>>(),
                      "res": resj}));
 }
@@ -200,9 +279,11 @@ fn main() {
     let mut rng = Rng::new((fv::seed_from_env() << 20) ^ 0xC06A);
     match mode.as_str() {
         "random" => {
-            for _ in 0..fv::arg_u64("n", 200) {
-                let (v, entry, manual) = generate(&mut rng);
-                run(&mut out, &v, entry, &manual);
+            let archs: Vec<String> = fv::arg_str("arch", "amd64,x86,aarch64,aarch64eb").split(',').map(|s| s.to_string()).collect();
+            for k in 0..fv::arg_u64("n", 200) {
+                let arch = &archs[k as usize % archs.len()];
+                let (v, entry, manual) = generate(&mut rng, arch);
+                run(&mut out, arch, &v, entry, &manual);
             }
         }
         "replay" => {
@@ -213,7 +294,7 @@ fn main() {
                 let e = if e.get("event").is_some() { e["event"].clone() } else { e };
                 if e["ev"] == "xstruct" {
                     let (v, entry, manual) = from_event(&e);
-                    run(&mut out, &v, entry, &manual);
+                    run(&mut out, e["mode"].as_str().unwrap_or("amd64"), &v, entry, &manual);
                 }
             }
         }
